@@ -2332,7 +2332,7 @@ ASSUMPTIONS = [
     "crash model: the process dies at an I/O event, the kernel survives (bytes that reached SimRaw.write persist); no power-loss model - the library never fsyncs and the property promises no such durability",
     "locale encoding fixed to UTF-8 (CPython's default in this sandbox)",
     "order oracle: paths with the same parent element keep their relative order (total order for flat documents); cross-group order is not constrained",
-    "no transforms, nodes or text are written (svg2paths ignores transforms and turns circles into paths by design)",
+    "group transforms: nine generated strings whose matrices are tabulated by hand in the harness; Document readers are held to M*path pointwise (1e-7 of the path's magnitude), svg2paths* to the d attribute as written, SaxDocument to either; Arcs under a transform and transforms on path elements are not judged",
     "coordinates are finite doubles with |x| <= ~1e31 (disvg's canvas arithmetic overflows near the top of the double range)",
     "attribute keys are XML names without underscores, values are non-empty strings without control characters (svgwrite treats an empty value as unset and rewrites '_' to '-')",
 ]
